@@ -365,11 +365,64 @@ func workerCount(p *load.Prog, r *oblig.Run, rule string) {
 			}
 		}
 	}
+	// the number a worker hands to the body is its own: received as an argument of the go statement, not read from a
+	// loop variable that the spawning loop keeps incrementing (one variable for all iterations in this module's Go version)
+	for _, b := range wp.Blocks {
+		for _, ins := range b.Instrs {
+			gs, ok := ins.(*ssa.Go)
+			if !ok {
+				continue
+			}
+			mc, _ := gs.Call.Value.(*ssa.MakeClosure)
+			var body *ssa.Function
+			if mc != nil {
+				body, _ = mc.Fn.(*ssa.Function)
+			} else if f2, isFn := gs.Call.Value.(*ssa.Function); isFn {
+				body = f2
+			}
+			if body == nil {
+				continue
+			}
+			for _, c := range su.Calls(body) {
+				if c.Common().StaticCallee() != nil || c.Common().IsInvoke() || len(c.Common().Args) != 1 {
+					continue
+				}
+				arg := c.Common().Args[0]
+				ld, isLoad := arg.(*ssa.UnOp)
+				if !isLoad || ld.Op != token.MUL {
+					continue
+				}
+				fv, isFV := ld.X.(*ssa.FreeVar)
+				if !isFV || mc == nil {
+					continue
+				}
+				for j, f3 := range body.FreeVars {
+					if f3 != fv {
+						continue
+					}
+					al, isAl := mc.Bindings[j].(*ssa.Alloc)
+					if !isAl {
+						continue
+					}
+					stores := 0
+					for _, ref := range *al.Referrers() {
+						if st, ok := ref.(*ssa.Store); ok && st.Addr == ssa.Value(al) {
+							stores++
+						}
+					}
+					if stores > 1 {
+						bad = "the worker goroutine reads its number from the loop variable " + al.Comment + " it shares with the spawning loop (captured by reference, incremented by the loop) instead of receiving it as an argument"
+						found = true
+					}
+				}
+			}
+		}
+	}
 	switch {
 	case !found:
 		o.Unknown("the go statement is not inside a counting loop `i < n`")
 	case bad != "":
-		o.Fail(bad + ": the job producers stride over their list by the requested count, so individuals whose index modulo that count has no worker are never examined for unique-identifier or pointer matches")
+		o.Fail(bad + ": the job producers stride over their list by the requested count starting at their own number, so individuals whose index modulo that count has no worker of that number are never examined for unique-identifier or pointer matches, and those of a number several workers share are paired (and merged) several times")
 	default:
 		o.OK("one goroutine for each i in 0..n-1, n the parameter")
 	}
@@ -1112,5 +1165,261 @@ func producerOrder(p *load.Prog, r *oblig.Run, rule string) {
 		} else {
 			o.OK("no producer that marks individuals runs before it, or it consults the already-sent maps")
 		}
+	}
+}
+
+// listLookups (R11.l): R11.h assumes that a lookup on a list of individuals
+// (ByPointer, ByUniqueIdentifier(s), ...) answers with individuals of that
+// list. Here every method of IndividualNodes that returns an individual or a
+// list of individuals and is called in the matching pipeline is checked: each
+// returned value is nil, an element of the receiver, the answer of another
+// checked lookup on the receiver, or a list appended from those.
+func listLookups(p *load.Prog, r *oblig.Run, rule string, root *ssa.Function, region map[*ssa.Function]bool) {
+	isIndiv := func(t types.Type) bool {
+		if pt, ok := t.(*types.Pointer); ok {
+			if n := load.NamedOf(pt.Elem()); n != nil && n.Obj().Name() == "IndividualNode" {
+				return true
+			}
+		}
+		if n := load.NamedOf(t); n != nil && n.Obj().Name() == "IndividualNodes" {
+			return true
+		}
+		return false
+	}
+	isLookup := func(fn *ssa.Function) bool {
+		if fn == nil || fn.Signature.Recv() == nil || len(fn.Blocks) == 0 || fn.Signature.Results().Len() != 1 {
+			return false
+		}
+		n := load.NamedOf(fn.Signature.Recv().Type())
+		return n != nil && n.Obj().Name() == "IndividualNodes" && isIndiv(fn.Signature.Results().At(0).Type()) && fn != root
+	}
+	called := map[*ssa.Function]bool{}
+	scan := func(fn *ssa.Function) {
+		for _, c := range su.Calls(fn) {
+			if cal := c.Common().StaticCallee(); isLookup(cal) && cal.Name() != "Merge" {
+				called[cal] = true
+			}
+		}
+	}
+	scan(root)
+	for fn := range region {
+		scan(fn)
+	}
+	// lookups that call lookups
+	for changed := true; changed; {
+		changed = false
+		for fn := range called {
+			for _, sub := range append([]*ssa.Function{fn}, fn.AnonFuncs...) {
+				for _, c := range su.Calls(sub) {
+					if cal := c.Common().StaticCallee(); isLookup(cal) && !called[cal] && cal.Name() != "Merge" {
+						called[cal] = true
+						changed = true
+					}
+				}
+			}
+		}
+	}
+	var fns []*ssa.Function
+	for fn := range called {
+		fns = append(fns, fn)
+	}
+	sort.Slice(fns, func(i, j int) bool { return fns[i].Pos() < fns[j].Pos() })
+	for _, fn := range fns {
+		o := r.Add(rule, "answers of "+load.FuncName(fn), p.Pos(fn.Pos()), "a lookup on a list answers with individuals of that list")
+		recv := fn.Params[0]
+		bad := ""
+		seen := map[ssa.Value]bool{}
+		var fromRecv func(v ssa.Value, d int) bool
+		// the receiver itself (a list) or a value copied from it
+		var isRecvList func(v ssa.Value, d int) bool
+		isRecvList = func(v ssa.Value, d int) bool {
+			if d > 8 {
+				return false
+			}
+			switch x := v.(type) {
+			case *ssa.Parameter:
+				return x == recv
+			case *ssa.FreeVar:
+				par := x.Parent().Parent()
+				if par == nil {
+					return false
+				}
+				for _, b := range par.Blocks {
+					for _, ins := range b.Instrs {
+						if mc, ok := ins.(*ssa.MakeClosure); ok && mc.Fn == x.Parent() {
+							for j, fv := range x.Parent().FreeVars {
+								if fv == x {
+									return isRecvList(mc.Bindings[j], d+1)
+								}
+							}
+						}
+					}
+				}
+				return false
+			case *ssa.Alloc:
+				n, ok := 0, true
+				for _, ref := range *x.Referrers() {
+					if st, isSt := ref.(*ssa.Store); isSt && st.Addr == ssa.Value(x) {
+						n++
+						ok = ok && isRecvList(st.Val, d+1)
+					}
+				}
+				return n > 0 && ok
+			case *ssa.UnOp:
+				if x.Op == token.MUL {
+					return isRecvList(x.X, d+1)
+				}
+			case *ssa.Slice:
+				return isRecvList(x.X, d+1)
+			case *ssa.ChangeType:
+				return isRecvList(x.X, d+1)
+			}
+			return false
+		}
+		// every store into the memory cell (a named result, possibly captured by a closure)
+		cellStores := func(cell ssa.Value) []ssa.Value {
+			var out []ssa.Value
+			var walk func(c ssa.Value, owner *ssa.Function)
+			walk = func(c ssa.Value, owner *ssa.Function) {
+				if c.Referrers() == nil {
+					return
+				}
+				for _, ref := range *c.Referrers() {
+					switch y := ref.(type) {
+					case *ssa.Store:
+						if y.Addr == c {
+							out = append(out, y.Val)
+						}
+					case *ssa.MakeClosure:
+						for j, b := range y.Bindings {
+							if b == c {
+								walk(y.Fn.(*ssa.Function).FreeVars[j], y.Fn.(*ssa.Function))
+							}
+						}
+					}
+				}
+			}
+			walk(cell, fn)
+			return out
+		}
+		fromRecv = func(v ssa.Value, d int) bool {
+			if d > 12 {
+				return false
+			}
+			if seen[v] {
+				return true
+			}
+			seen[v] = true
+			switch x := v.(type) {
+			case *ssa.Const:
+				return x.Value == nil
+			case *ssa.Phi:
+				for _, e := range x.Edges {
+					if !fromRecv(e, d+1) {
+						return false
+					}
+				}
+				return true
+			case *ssa.Extract:
+				// value of a range over the receiver
+				if nx, ok := x.Tuple.(*ssa.Next); ok && x.Index == 2 {
+					if rg, ok := nx.Iter.(*ssa.Range); ok {
+						return isRecvList(rg.X, 0)
+					}
+				}
+				return false
+			case *ssa.UnOp:
+				if x.Op != token.MUL {
+					return false
+				}
+				switch ad := x.X.(type) {
+				case *ssa.IndexAddr:
+					return isRecvList(ad.X, 0)
+				case *ssa.Alloc, *ssa.FreeVar:
+					cell := ssa.Value(ad)
+					if fv, ok := ad.(*ssa.FreeVar); ok {
+						// find the captured cell in the enclosing function
+						if par := fv.Parent().Parent(); par != nil {
+							for _, b := range par.Blocks {
+								for _, ins := range b.Instrs {
+									if mc, ok := ins.(*ssa.MakeClosure); ok && mc.Fn == fv.Parent() {
+										for j, f2 := range fv.Parent().FreeVars {
+											if f2 == fv {
+												cell = mc.Bindings[j]
+											}
+										}
+									}
+								}
+							}
+						}
+					}
+					sts := cellStores(cell)
+					for _, s := range sts {
+						if !fromRecv(s, d+1) {
+							return false
+						}
+					}
+					return true // an unassigned named result is nil
+				}
+				return false
+			case *ssa.Index:
+				return isRecvList(x.X, 0)
+			case *ssa.Slice:
+				return fromRecv(x.X, d+1) || isRecvList(x.X, 0)
+			case *ssa.ChangeType:
+				return fromRecv(x.X, d+1)
+			case *ssa.Alloc:
+				// the variadic array of an append: its element stores
+				ok := true
+				n := 0
+				for _, ref := range *x.Referrers() {
+					if ia, isIA := ref.(*ssa.IndexAddr); isIA {
+						for _, r2 := range *ia.Referrers() {
+							if st, isSt := r2.(*ssa.Store); isSt && st.Addr == ssa.Value(ia) {
+								n++
+								ok = ok && fromRecv(st.Val, d+1)
+							}
+						}
+					}
+				}
+				return n > 0 && ok
+			case *ssa.Call:
+				if bi, isB := x.Call.Value.(*ssa.Builtin); isB && bi.Name() == "append" {
+					for _, a := range x.Call.Args {
+						if !fromRecv(a, d+1) {
+							return false
+						}
+					}
+					return true
+				}
+				if cal := x.Call.StaticCallee(); isLookup(cal) && called[cal] && len(x.Call.Args) > 0 && isRecvList(x.Call.Args[0], 0) {
+					return true // checked as its own obligation
+				}
+				return false
+			}
+			return false
+		}
+		n := 0
+		for _, b := range fn.Blocks {
+			ret, ok := b.Instrs[len(b.Instrs)-1].(*ssa.Return)
+			if !ok || len(ret.Results) != 1 {
+				continue
+			}
+			n++
+			if !fromRecv(ret.Results[0], 0) {
+				bad = "the value returned at " + p.Pos(ret.Pos()) + " is not (only) made of elements of the list the lookup was called on"
+			}
+		}
+		switch {
+		case n == 0:
+			o.Unknown("no return found")
+		case bad != "":
+			o.Fail(bad + ": the pipeline pairs an individual of one list with an individual that was never handed to Compare (a comparison whose Right is not in the right list)")
+		default:
+			o.OK(fmt.Sprintf("%d return(s): nil, elements of the receiver, or answers of checked lookups on the receiver", n))
+		}
+	}
+	if len(fns) == 0 {
+		r.Add(rule, "lookups", "-", "list lookups used by the pipeline").Unknown("the pipeline calls no lookup on a list of individuals")
 	}
 }
